@@ -31,12 +31,14 @@ const preamble = `(set-option :produce-models true)
 `
 
 type Solver struct {
-	name  string
-	cmd   *exec.Cmd
-	in    io.WriteCloser
-	out   *bufio.Reader
-	depth int
-	dead  bool
+	oneshot   bool
+	timeoutMs int
+	name      string
+	cmd       *exec.Cmd
+	in        io.WriteCloser
+	out       *bufio.Reader
+	depth     int
+	dead      bool
 	// statistics
 	queries int64
 	nanos   int64
@@ -49,6 +51,10 @@ var solverStats struct {
 func newSolver(kind string, timeoutMs int) (*Solver, error) {
 	var cmd *exec.Cmd
 	switch kind {
+	case "cvc5-1", "z3-1", "z3new-1":
+		// one process per query: the solvers start in 10-30 ms and cvc5 decides
+		// more queries outside incremental mode
+		return &Solver{name: kind, oneshot: true, timeoutMs: timeoutMs}, nil
 	case "z3":
 		cmd = exec.Command("z3", "-in", "-t:"+strconv.Itoa(timeoutMs))
 	case "z3-new":
@@ -82,7 +88,7 @@ func newSolver(kind string, timeoutMs int) (*Solver, error) {
 }
 
 func (s *Solver) close() {
-	if s == nil || s.dead {
+	if s == nil || s.dead || s.oneshot {
 		return
 	}
 	s.dead = true
@@ -382,4 +388,69 @@ func sexpInt(e sexp) (int64, bool) {
 		return 0, false
 	}
 	return v, true
+}
+
+// runOneShot runs a complete script on a fresh cvc5 process.
+func (s *Solver) runOneShot(script string, wantValues bool) (Result, string, error) {
+	t0 := time.Now()
+	var cmd *exec.Cmd
+	switch s.name {
+	case "z3-1":
+		cmd = exec.Command("z3", "-in", "-t:"+strconv.Itoa(s.timeoutMs))
+		cmd.Stdin = strings.NewReader(preamble + script)
+	case "z3new-1":
+		cmd = exec.Command("z3-new", "-in", "-t:"+strconv.Itoa(s.timeoutMs))
+		cmd.Stdin = strings.NewReader(preamble + script)
+	default:
+		cmd = exec.Command("cvc5", "--lang=smt2", "--strings-exp", "--tlimit="+strconv.Itoa(s.timeoutMs))
+		cmd.Stdin = strings.NewReader("(set-logic ALL)\n" + preamble + script)
+	}
+	out, _ := cmd.CombinedOutput()
+	atomic.AddInt64(&solverStats.queries, 1)
+	atomic.AddInt64(&solverStats.nanos, time.Since(t0).Nanoseconds())
+	txt := string(out)
+	first := txt
+	rest := ""
+	if i := strings.IndexByte(txt, '\n'); i >= 0 {
+		first, rest = txt[:i], txt[i+1:]
+	}
+	switch strings.TrimSpace(first) {
+	case "sat":
+		return Sat, rest, nil
+	case "unsat":
+		return Unsat, "", nil
+	case "unknown", "timeout":
+		atomic.AddInt64(&solverStats.unknowns, 1)
+		return Unknown, "", nil
+	}
+	if strings.Contains(txt, "interrupted by timeout") || strings.Contains(txt, "timeout") {
+		atomic.AddInt64(&solverStats.unknowns, 1)
+		return Unknown, "", nil
+	}
+	if strings.TrimSpace(txt) == "" {
+		atomic.AddInt64(&solverStats.unknowns, 1)
+		return Unknown, "", nil
+	}
+	return Unknown, "", fmt.Errorf(s.name+": unexpected output %q\n  for script: %s", truncate(txt, 500), truncate(script, 3000))
+}
+
+func parseValues(txt string, terms []*Term) (map[string]sexp, error) {
+	if strings.Contains(txt, "(error") {
+		return nil, fmt.Errorf("get-value: %s", truncate(txt, 500))
+	}
+	e, _, err := parseSexp(txt, 0)
+	if err != nil {
+		return nil, fmt.Errorf("get-value parse: %v in %q", err, truncate(txt, 500))
+	}
+	res := map[string]sexp{}
+	if len(e.list) != len(terms) {
+		return nil, fmt.Errorf("get-value: %d answers for %d terms", len(e.list), len(terms))
+	}
+	for i, pair := range e.list {
+		if len(pair.list) != 2 {
+			return nil, fmt.Errorf("bad pair in get-value")
+		}
+		res[terms[i].key] = pair.list[1]
+	}
+	return res, nil
 }
